@@ -4,6 +4,31 @@ import json, sys
 BASE = json.load(open('/root/.vp/BASELINE.json'))
 ALL = ["C%02d" % i for i in range(1, 21)]
 CHECKS = {
+ "C07": dict(cat="exploration", engine="groth16-real",
+   technique="bounded-exhaustive menu: valid batches x every single-field and shape perturbation x candidate public inputs, on real Groth16 setups",
+   text="Real SetupInsertion/SetupDeletion at (2,2) (thorough: +(1,1),(3,2)); valid batches from several tree states; for each, every single-field perturbation and every array-shape perturbation must yield (nil, error) without panic; every returned proof is verified against a public-input menu (hash, hash mod r, +r, +3r accept; +-1, bit flips, 0, r-1, other batches' hashes reject) and against the other mode's system.",
+   note="Groth16 soundness itself is out of scope; 'every other public input' is the enumerated menu.", ref="DESIGN.md C07"),
+ "C08": dict(cat="exploration", engine="ref+cli",
+   technique="bounded-exhaustive enumeration of byte-length classes for every packed field and of all gen-test-params dimensions vs the packing written from the statement",
+   text="Both helpers on every pair of big-endian byte lengths 0..32 of (preRoot, postRoot), batch sizes {0,1,2,3,19}, index extremes; gen-test-params of the built binary for every (mode, depth 1..32, batch 1..4 (8)) the tree can hold, emitted hash compared with Keccak of the canonical packing and, for affordable dimensions, the emitted set run through the real circuit in the engine.",
+   note="That the circuit enforces this packing is C03's subject. Found and fixed F1 (unpadded roots).", ref="DESIGN.md C08"),
+ "C10": dict(cat="exploration", engine="ref",
+   technique="bounded-exhaustive product of coordinate-length classes over synthetic curve-point proofs + real proofs until short coordinates occur",
+   text="All combinations (A,B,C) of representative points, one per coordinate-length class found among k*G1,k*G2 (k<=4000/40000), so each of the 8 JSON slots is exercised short and long; JSON must carry the coordinates read from gnark's struct fields in EVM order as 0x-hex; decode(encode(p)) == p; real (1,1) proofs are produced until short coordinates occurred and must still verify after the round trip.",
+   note="Trusts gnark-crypto point encoding. Found and fixed F2 (left-aligned slots).", ref="DESIGN.md C10"),
+ "C11": dict(cat="exploration", engine="seqmc",
+   technique="explicit-state search over chains of write/read/convert operations on real proving systems; every reached state compared with the origin",
+   text="From fresh setups of both modes at (1,2) (thorough +(3,2),(2,3)): all chains of length 1 and selected (thorough: all) chains of length 2(3) over {compressed, raw} x {memory, file} and the CLI convert-to-raw; each reached system must keep depth/batch, re-serialise byte-identically, prove a batch the original verifies and verify the original's proof.",
+   note="Byte equality of the raw re-serialisation stands for key/constraint-system equality.", ref="DESIGN.md C11"),
+ "C15": dict(cat="fault_enumeration", engine="fault-enum",
+   technique="exhaustive crash-point enumeration: every byte offset of a small proving-system file, structural cut points of real files, CLI on cut files",
+   text="Every strict prefix of a structurally identical small system in both formats through UnsafeReadFrom and ReadSystemFromFile; for real (1,1) systems all section boundaries +-k, all offsets where the write size changes, head and tail; CLI start/prove/verify/export-solidity/convert-to-raw on cut files must exit non-zero, never serve, never leave a loadable output. Oracle: error, no panic, no hang (10 min liveness guard).",
+   note="Every-byte exhaustiveness is on the small system; the real files are cut at structural points.", ref="DESIGN.md C15"),
+ "C16": dict(cat="exploration", engine="ref",
+   technique="bounded-exhaustive enumeration: all strings of length <=4 over a 15-letter alphabet in every numeric field, pairwise value table over all ragged shapes",
+   text="Round trip of insertion and deletion parameters over every ragged shape with batch, depth in {0,1,2}, every field taking every value of a 12-element alphabet (0..2^300) while others cycle (pairwise), nil vs empty slices; acceptance of 54k strings per numeric field and JSON scalars in index fields against a three-valued number oracle (unspecified notations are not judged).",
+   note="Decimal and 0x-lowercase-hex count as numbers; other Go prefix notations are unjudged.", ref="DESIGN.md C16"),
+
  "C01": dict(cat="model_checking", engine="r1csmc+enginemc",
    technique="explicit-state search of the compiled R1CS (all hint-wire values over F_47; hint adversary on BN254) + bounded-exhaustive engine runs vs the relation of the statement",
    text="(1) InsertionRound/InsertionProof compiled over the 47-element field: every input assignment of the stated product space, with every value of every prover-chosen wire explored (dead states pruned by violated constraints); the set of reachable outputs must equal the reference. (2) the full InsertionMbuCircuit.Define (Keccak included) over the whole field F_5 (F_7 thorough). (3) BN254: every leaf-vector state over {0,1,r-1} at depth 1,2 (3 thorough) x an operation menu (start-index alphabet incl. 2^d, 2^32, r-1; commitments; genuine/stale/corrupted/reused paths; post-root variants) on the InsertionProof gadget, boundary depths 16/31/32, and the compiled BuildR1CSInsertion system solved with a deviation-bounded hint adversary and re-checked by an independent evaluator.",
@@ -67,6 +92,7 @@ def main():
         "engines": [
             {"name": "seqmc", "path": "harness/checks", "serves_properties": ["C18"], "kind_free_text": "breadth/depth-first enumeration of operation histories on fresh real objects against reference models"},
             {"name": "r1csmc", "path": "harness/r1csmc", "serves_properties": ["C01", "C02", "C03", "C04", "C05", "C06"], "kind_free_text": "explicit-state search over a compiled R1CS: partial wire assignments, forced propagation, adversary choices for unforced/hint wires, independent constraint evaluator"},
+            {"name": "groth16-real", "path": "harness/checks", "serves_properties": ["C07", "C10", "C11", "C15"], "kind_free_text": "bounded-exhaustive menus and operation chains on real Groth16 setups, proofs and key files"},
             {"name": "enginemc", "path": "harness/gad", "serves_properties": ["C01", "C02", "C03", "C04", "C05", "C06"], "kind_free_text": "bounded-exhaustive evaluation of repo gadgets / full Define in gnark's test engine over small whole fields and BN254 alphabets"},
         ],
         "checks": checks,
